@@ -90,15 +90,99 @@ theorem IterInv.ple_other {d : Bool} {a0 : ANode} {items0 : List Item} {a : ANod
   obtain ⟨w, hw, hle⟩ := hp
   exact ⟨w, by rw [wmOf_congr_meta (h.getMeta_other _ hk)]; exact hw, by rw [h.frame.otherWm]; exact hle⟩
 
+/-! ### what a start reads as the DA-included height -/
+
+/-- what a start reads as the DA-included height -/
+def loadInc (c : Cfg) (s : Store) : Nat :=
+  let di0 := match s.getMeta daIncKey with
+    | some b => if b.length = 8 then Bytes.unLe b else 0
+    | none => 0
+  if c.initialHeight > 1 ∧ di0 < c.initialHeight - 1 then c.initialHeight - 1 else di0
+
+theorem loadInc_some {c : Cfg} {s : Store} {v : Nat} (h : s.getMeta daIncKey = some (le64 v)) (hb : v < 2 ^ 64)
+    (hl : c.initialHeight - 1 ≤ v) : loadInc c s = v := by
+  unfold loadInc
+  rw [h]
+  simp only [le64_length, ↓reduceIte, unLe_le64 hb]
+  rw [if_neg (by omega)]
+
+theorem loadInc_none {c : Cfg} {s : Store} (h : s.getMeta daIncKey = none) : loadInc c s = c.initialHeight - 1 := by
+  unfold loadInc
+  rw [h]
+  simp only
+  split <;> omega
+
+theorem loadInc_congr {c : Cfg} {s s' : Store} (h : s'.getMeta daIncKey = s.getMeta daIncKey) :
+    loadInc c s' = loadInc c s := by
+  unfold loadInc; rw [h]
+
+theorem loadInc_ge (c : Cfg) (s : Store) : c.initialHeight - 1 ≤ loadInc c s := by
+  unfold loadInc
+  cases s.getMeta daIncKey with
+  | none => simp only; split <;> omega
+  | some b =>
+    by_cases h8 : b.length = 8
+    · simp only [h8, ↓reduceIte]; split <;> omega
+    · simp only [h8, ↓reduceIte]; split <;> omega
+
+theorem loadInc_le64 {c : Cfg} {s : Store} {v : Nat} (h : s.getMeta daIncKey = some (le64 v))
+    (hl : c.initialHeight - 1 ≤ v) : loadInc c s ≤ v := by
+  unfold loadInc
+  rw [h]
+  have h8 : (256 : Nat) ^ 8 = 2 ^ 64 := by decide
+  have hm : Bytes.unLe (le64 v) ≤ v := by rw [le64, unLe_le, h8]; exact Nat.mod_le _ _
+  simp only [le64_length, ↓reduceIte]
+  split <;> omega
+
+/-- the DA-included height is at least `initialHeight − 1`, and **what a restart would report is at most what the node
+reports** (it is equal below 2^64: `PDI`) -/
+def PDw (c : Cfg) (a : ANode) : Prop := c.initialHeight - 1 ≤ a.daInc ∧ loadInc c a.n.store ≤ a.daInc
+
+theorem PDw.step {c : Cfg} {a : ANode} (hl : Live c a.n) (p : PDw c a) (act : Act) : PDw c (stepA c a act) := by
+  cases act with
+  | produce rs e =>
+    have hm := publish_getMeta hl rs e daIncKey (by decide)
+    exact ⟨p.1, by show loadInc c (publish c a.n rs e).1.store ≤ a.daInc; rw [loadInc_congr hm]; exact p.2⟩
+  | subH s =>
+    obtain ⟨_, hi, _⟩ := headersIter_iter a s
+    have hm := hi.getMeta_other daIncKey (by decide)
+    have hd : (headersIter a s).1.daInc = a.daInc := hi.frame.daInc
+    exact ⟨by show _ ≤ (headersIter a s).1.daInc; rw [hd]; exact p.1,
+      by show loadInc c (headersIter a s).1.n.store ≤ (headersIter a s).1.daInc; rw [loadInc_congr hm, hd]; exact p.2⟩
+  | subD s =>
+    obtain ⟨_, hi, _⟩ := dataIter_iter a s
+    have hm := hi.getMeta_other daIncKey (by decide)
+    have hd : (dataIter a s).1.daInc = a.daInc := hi.frame.daInc
+    exact ⟨by show _ ≤ (dataIter a s).1.daInc; rw [hd]; exact p.1,
+      by show loadInc c (dataIter a s).1.n.store ≤ (dataIter a s).1.daInc; rw [loadInc_congr hm, hd]; exact p.2⟩
+  | incl =>
+    have hi : PassInv a (includerIter a).1 (includerIter a).2 :=
+      includerPass_inv (a.n.store.height + 1) a a [] (PassInv.init a)
+    have hmono := hi.mono
+    refine ⟨Nat.le_trans p.1 hmono, ?_⟩
+    show loadInc c (includerIter a).1.n.store ≤ (includerIter a).1.daInc
+    by_cases hadv : a.daInc < (includerIter a).1.daInc
+    · exact loadInc_le64 (hi.persisted hadv).1 (Nat.le_trans p.1 hmono)
+    · have heq : (includerIter a).1.daInc = a.daInc := by omega
+      obtain ⟨rec, _, hws⟩ := hi.writes
+      have hnil : (includerIter a).2 = [] := by rw [hws, heq]; simp
+      have hst : (includerIter a).1.n.store = a.n.store := by rw [hi.store, hnil]; rfl
+      rw [hst, heq]; exact p.2
+
 /-! ### the invariant of reachable nodes -/
 
-/-- `W` (watermarks in `[initialHeight − 1, height]`, acknowledged headers on the DA layer), the producer's liveness
-invariant, memory in sync with the durable image, persisted watermarks at most the ones in memory -/
+/-- `W` (watermarks in `[initialHeight − 1, height]`, acknowledged headers on the DA layer), `D` (data side), the producer's
+liveness invariant, memory in sync with the durable image, persisted watermarks at most the ones in memory, `G` (marks and
+reported heights sound) and `PDw` (DA-included height durable) -/
 structure R (c : Cfg) (a : ANode) : Prop extends W c a, D c a where
   live : Live c a.n
   synced : Synced c a.n
   ph : PLe false a
   pd : PLe true a
+  /-- marks and reported heights are sound (C07) -/
+  g : G c a
+  /-- the DA-included height is at least `initialHeight − 1` and a restart reports at most what the node reports -/
+  pdw : PDw c a
 
 theorem R.wmOK {c : Cfg} {a : ANode} (r : R c a) : WmOK a.n.store := by
   obtain ⟨w1, hw1, _⟩ := r.ph
@@ -119,7 +203,11 @@ theorem R_fresh (c : Cfg) (h1 : 1 ≤ c.initialHeight) : R c (freshA c) := by
     have : wmOf ({} : Store) Producer.dataWmKey = some 0 := rfl
     rw [this] at e2; simpa using e2.symm
   subst z1; subst z2
-  refine { W_fresh c h1, D_fresh c h1 with live := hl, synced := hsy, ph := ?_, pd := ?_ }
+  have hpdw : PDw c (freshA c) := by
+    obtain ⟨_, _, hkv, _⟩ := freshDisk_facts c
+    have hm : (freshNode c).store.getMeta daIncKey = none := hkv _ (by decide) (by decide)
+    exact ⟨Nat.le_refl _, by show loadInc c (freshNode c).store ≤ c.initialHeight - 1; rw [loadInc_none hm]; exact Nat.le_refl _⟩
+  refine { W_fresh c h1, D_fresh c h1 with live := hl, synced := hsy, ph := ?_, pd := ?_, g := G_fresh c h1, pdw := hpdw }
   · show ∃ w, wmOf (freshNode c).store Producer.hdrWmKey = some w ∧ w ≤ (freshNode c).hdrWm
     by_cases hc : c.initialHeight > 1 ∧ c.initialHeight - 1 > 0
     · rw [if_pos hc] at e5
@@ -138,20 +226,23 @@ theorem R_fresh (c : Cfg) (h1 : 1 ≤ c.initialHeight) : R c (freshA c) := by
 /-- an action that leaves height, blocks, last state and saved state alone -/
 theorem R.of_frame {c : Cfg} {a a' : ANode} (r : R c a) (w : W c a') (d : D c a') (hh : a'.n.store.height = a.n.store.height)
     (hb : ∀ k, a'.n.store.getBlock k = a.n.store.getBlock k) (hl : a'.n.lastState = a.n.lastState)
-    (hs : a'.n.store.state = a.n.store.state) (ph : PLe false a') (pd : PLe true a') : R c a' :=
+    (hs : a'.n.store.state = a.n.store.state) (ph : PLe false a') (pd : PLe true a') (g : G c a') (pdw : PDw c a') :
+    R c a' :=
   { w, d with
     live := Live.of_same r.live hh hb hl
     synced := by have := r.synced; unfold Synced at this ⊢; rw [hs, hl]; exact this
-    ph := ph, pd := pd }
+    ph := ph, pd := pd, g := g, pdw := pdw }
 
 theorem R.step {c : Cfg} {a : ANode} (r : R c a) (act : Act) : R c (stepA c a act) := by
   have w := r.toW.step act
   have d := D.step r.toW r.toD act
+  have g := stepA_G r.g act
+  have pdw := r.pdw.step r.live act
   cases act with
   | produce rs e =>
     obtain ⟨w1, w2⟩ := publish_wm c a.n rs e
     obtain ⟨s1, _, _⟩ := publish_synced r.live r.synced r.wmOK rs e
-    refine { w, d with live := publish_live r.live rs e, synced := s1, ph := ?_, pd := ?_ }
+    refine { w, d with live := publish_live r.live rs e, synced := s1, ph := ?_, pd := ?_, g := g, pdw := pdw }
     · obtain ⟨x, hx, hle⟩ := r.ph
       refine ⟨x, ?_, ?_⟩
       · show wmOf (publish c a.n rs e).1.store (wmKey false) = some x
@@ -167,15 +258,15 @@ theorem R.step {c : Cfg} {a : ANode} (r : R c a) (act : Act) : R c (stepA c a ac
   | subH s =>
     obtain ⟨items, hi, _⟩ := headersIter_iter a s
     exact r.of_frame w d hi.frame.height hi.frame.getBlock hi.frame.lastState hi.frame.state (hi.ple r.ph)
-      (hi.ple_other (d := false) r.pd)
+      (hi.ple_other (d := false) r.pd) g pdw
   | subD s =>
     obtain ⟨items, hi, _⟩ := dataIter_iter a s
     exact r.of_frame w d hi.frame.height hi.frame.getBlock hi.frame.lastState hi.frame.state
-      (hi.ple_other (d := true) r.ph) (hi.ple r.pd)
+      (hi.ple_other (d := true) r.ph) (hi.ple r.pd) g pdw
   | incl =>
     have hi : PassInv a (includerIter a).1 (includerIter a).2 :=
       includerPass_inv (a.n.store.height + 1) a a [] (PassInv.init a)
-    refine r.of_frame w d hi.frame.height hi.frame.getBlock hi.frame.lastState hi.frame.state ?_ ?_
+    refine r.of_frame w d hi.frame.height hi.frame.getBlock hi.frame.lastState hi.frame.state ?_ ?_ g pdw
     · obtain ⟨x, hx, hle⟩ := r.ph
       refine ⟨x, ?_, ?_⟩
       · show wmOf (includerIter a).1.n.store (wmKey false) = some x
@@ -191,18 +282,31 @@ theorem R.step {c : Cfg} {a : ANode} (r : R c a) (act : Act) : R c (stepA c a ac
 
 /-! ### restart -/
 
+/-- what a restart keeps and reloads -/
+structure RestartFacts (c : Cfg) (a a' : ANode) (clean : Bool) : Prop where
+  hdrWm : a'.n.hdrWm ≤ wmRaise c a.n.hdrWm
+  dataWm : a'.n.dataWm ≤ wmRaise c a.n.dataWm
+  height : a'.n.store.height = a.n.store.height
+  blocks : ∀ k, k ≤ a.n.store.height → a'.n.store.getBlock k = a.n.store.getBlock k
+  daBlobs : a'.daBlobs = a.daBlobs
+  daH : a'.daH = a.daH
+  finals : a'.finals = a.finals
+  hMarks : a'.hMarks = if clean then a.hMarks else []
+  dMarks : a'.dMarks = if clean then a.dMarks else []
+  daInc : a'.daInc = loadInc c a.n.store
+  incMeta : a'.n.store.getMeta daIncKey = a.n.store.getMeta daIncKey
+
 /-- **a restart (clean stop or crash between two actions) on the image of a reachable node succeeds and yields a
 reachable node**: the reloaded watermarks are the persisted ones raised to `initialHeight − 1`, hence again in
 `[initialHeight − 1, height]`, and everything at or below the header watermark is still on the DA layer -/
 theorem R.restart {c : Cfg} {a : ANode} (r : R c a) (clean : Bool) :
-    ∃ a', restart c a a.n.store clean = some a' ∧ R c a' ∧ a'.n.hdrWm ≤ wmRaise c a.n.hdrWm ∧
-      a'.n.dataWm ≤ wmRaise c a.n.dataWm ∧ a.n.store.height ≤ a'.n.store.height ∧ a'.daBlobs = a.daBlobs := by
+    ∃ a', restart c a a.n.store clean = some a' ∧ R c a' ∧ RestartFacts c a a' clean := by
   obtain ⟨w1, hw1, hle1⟩ := r.ph
   obtain ⟨w2, hw2, hle2⟩ := r.pd
   have hle1' : w1 ≤ a.n.hdrWm := hle1
   have hle2' : w2 ≤ a.n.dataWm := hle2
   obtain ⟨n, ws, hst, hl, hsy, _⟩ := start_of_dinv (dinv_of_node r.live r.synced r.wmOK)
-  obtain ⟨hw, dw, e1, e2, e3, e4, e5, e6, _, e8, e9, _, e11, e12⟩ := start_facts hst
+  obtain ⟨hw, dw, e1, e2, e3, e4, e5, e6, e7, e8, e9, _, e11, e12⟩ := start_facts hst
   have z1 : hw = w1 := by
     have : wmOf a.n.store Producer.hdrWmKey = some w1 := hw1
     rw [this] at e1; simpa using e1.symm
@@ -223,9 +327,12 @@ theorem R.restart {c : Cfg} {a : ANode} (r : R c a) (clean : Bool) :
     · exact e11 _ h
     · rw [e12 h, h']
   have hheq : n.store.height = a.n.store.height := by rw [hl.hs, hls, r.live.hs]
-  have hblk : ∀ k, c.initialHeight ≤ k → k ≤ a.n.store.height → n.store.getBlock k = a.n.store.getBlock k := by
-    intro k hk hk2
+  have hblk' : ∀ k, k ≤ a.n.store.height → n.store.getBlock k = a.n.store.getBlock k := by
+    intro k hk2
     exact e8 k (fun hn => by have := hnone hn; have := r.pinv.ihPos; omega)
+  have hblk : ∀ k, c.initialHeight ≤ k → k ≤ a.n.store.height → n.store.getBlock k = a.n.store.getBlock k :=
+    fun k _ hk2 => hblk' k hk2
+  have hmd : n.store.getMeta daIncKey = a.n.store.getMeta daIncKey := e7 _ (by decide) (by decide)
   have hmono : ∀ x y, x ≤ y → wmRaise c x ≤ wmRaise c y := by
     intro x y hxy; unfold wmRaise; split <;> split <;> omega
   have hpl : ∀ (key : String) (x : Nat), n.store.getMeta key = (if c.initialHeight > 1 ∧ c.initialHeight - 1 > x
@@ -238,13 +345,21 @@ theorem R.restart {c : Cfg} {a : ANode} (r : R c a) (clean : Bool) :
       exact ⟨w, q1, by unfold wmRaise; rw [if_pos hc]; exact q2⟩
     · rw [if_neg hc] at e
       exact ⟨x, by rw [wmOf_congr_meta e]; exact hx, by unfold wmRaise; rw [if_neg hc]; exact Nat.le_refl _⟩
-  have hr : ∃ a', Submit.restart c a a.n.store clean = some a' ∧ a'.n = n ∧ a'.daBlobs = a.daBlobs := by
-    unfold Submit.restart; rw [hst]; exact ⟨_, rfl, rfl, rfl⟩
-  obtain ⟨a', hr, hn, hda⟩ := hr
+  have hr : ∃ a', Submit.restart c a a.n.store clean = some a' ∧ a'.n = n ∧ a'.daBlobs = a.daBlobs ∧ a'.daH = a.daH ∧
+      a'.finals = a.finals ∧ a'.hMarks = (if clean then a.hMarks else []) ∧ a'.dMarks = (if clean then a.dMarks else []) ∧
+      a'.daInc = loadInc c n.store := by
+    unfold Submit.restart; rw [hst]; exact ⟨_, rfl, rfl, rfl, rfl, rfl, rfl, rfl, rfl⟩
+  obtain ⟨a', hr, hn, hda, hdah, hfin, hhm, hdm, hinc⟩ := hr
   subst hn
-  refine ⟨a', hr, ?_, ?_, ?_, e9, hda⟩
+  have hinc' : a'.daInc = loadInc c a.n.store := by rw [hinc, loadInc_congr hmd]
+  have hincle : a'.daInc ≤ a.daInc := by rw [hinc']; exact r.pdw.2
+  have tH : ∀ k dh, HdrOnDA a k dh → HdrOnDA a' k dh := fun k dh h =>
+    h.mono (by rw [hheq]; exact Nat.le_refl _) hblk' (fun e he => by rw [hda]; exact he)
+  have tD : ∀ k dh, DataOnDA a k dh → DataOnDA a' k dh := fun k dh h =>
+    h.mono (by rw [hheq]; exact Nat.le_refl _) hblk' (fun e he => by rw [hda]; exact he)
+  refine ⟨a', hr, ?_, ⟨?_, ?_, hheq, hblk', hda, hdah, hfin, hhm, hdm, hinc', hmd⟩⟩
   · refine { pinv := hl.toInv, low := ?_, le := ?_, dlow := ?_, dle := ?_, acc := ?_, mh := ?_, dacc := ?_, live := hl,
-             synced := hsy, ph := ?_, pd := ?_ }
+             synced := hsy, ph := ?_, pd := ?_, g := ?_, pdw := ?_ }
     · rw [e3]; exact (wmRaise_ge c _).2
     · rw [e3]
       have := r.le
@@ -280,43 +395,29 @@ theorem R.restart {c : Cfg} {a : ANode} (r : R c a) (clean : Bool) :
       exact ⟨w, q1, by show w ≤ a'.n.hdrWm; rw [e3]; exact q2⟩
     · obtain ⟨w, q1, q2⟩ := hpl _ _ e6 hw2
       exact ⟨w, q1, by show w ≤ a'.n.dataWm; rw [e4]; exact q2⟩
+    · refine ⟨hl.toInv, ?_, ?_, ?_, ?_⟩
+      · exact Nat.le_trans hincle (by rw [hheq]; exact r.g.incLe)
+      · intro e he
+        rw [hhm] at he
+        cases clean with
+        | false => cases he
+        | true => exact tH _ _ (r.g.hM e he)
+      · intro e he
+        rw [hdm] at he
+        cases clean with
+        | false => cases he
+        | true => exact tD _ _ (r.g.dM e he)
+      · intro h h1 h2
+        obtain ⟨b, r1, ⟨dh, r2⟩, r3⟩ := r.g.incSound h h1 (Nat.le_trans h2 hincle)
+        refine ⟨b, by rw [hblk' h (Nat.le_trans (Nat.le_trans h2 hincle) r.g.incLe)]; exact r1, ⟨dh, tH _ _ r2⟩, ?_⟩
+        rcases r3 with r3 | ⟨dd, r3⟩
+        · exact Or.inl r3
+        · exact Or.inr ⟨dd, tD _ _ r3⟩
+    · exact ⟨by rw [hinc]; exact loadInc_ge c _, by rw [hinc]; exact Nat.le_refl _⟩
   · rw [e3]; exact hmono _ _ hle1'
   · rw [e4]; exact hmono _ _ hle2'
 
-/-! ### all interleavings -/
-
-/-- an action of the node, or a restart on its current durable image (`clean`: after `SaveCache`; otherwise a crash
-between two actions, which loses the marks) -/
-inductive ActR
-  | act (x : Act)
-  | restart (clean : Bool)
-
-def stepR (c : Cfg) (a : ANode) : ActR → ANode
-  | .act x => stepA c a x
-  | .restart clean => (restart c a a.n.store clean).getD a
-
-def runR (c : Cfg) (a : ANode) (acts : List ActR) : ANode := acts.foldl (stepR c) a
-
-theorem R.stepR {c : Cfg} {a : ANode} (r : R c a) (x : ActR) : R c (stepR c a x) := by
-  cases x with
-  | act x => exact r.step x
-  | restart clean =>
-    obtain ⟨a', h, r', _⟩ := r.restart clean
-    show R c ((Submit.restart c a a.n.store clean).getD a)
-    rw [h]; exact r'
-
-/-- **the invariant holds of every node reachable from a fresh start, for every initial height ≥ 1** -/
-theorem R.run {c : Cfg} {a : ANode} (r : R c a) (acts : List ActR) : R c (runR c a acts) := by
-  induction acts generalizing a with
-  | nil => exact r
-  | cons x acts ih => exact ih (r.stepR x)
-
-theorem runR_act (c : Cfg) (a : ANode) (acts : List Act) : runR c a (acts.map .act) = runA c a acts := by
-  induction acts generalizing a with
-  | nil => rfl
-  | cons x acts ih => exact ih (stepA c a x)
-
-/-! ### the DA-included height is durable -/
+/-! ### the DA-included height is durable (exact form, below 2^64) -/
 
 /-- the DA-included height is at least `initialHeight − 1`, and the persisted value is the one in memory — or nothing is
 persisted yet and the node holds `initialHeight − 1` (where every start puts it) -/
@@ -372,26 +473,6 @@ theorem PDI.run {c : Cfg} {a : ANode} (r : R c a) (p : PDI c a) (acts : List Act
   induction acts generalizing a with
   | nil => exact p
   | cons act acts ih => exact ih (r.step act) (p.step r act)
-
-/-- what a start reads as the DA-included height -/
-def loadInc (c : Cfg) (s : Store) : Nat :=
-  let di0 := match s.getMeta daIncKey with
-    | some b => if b.length = 8 then Bytes.unLe b else 0
-    | none => 0
-  if c.initialHeight > 1 ∧ di0 < c.initialHeight - 1 then c.initialHeight - 1 else di0
-
-theorem loadInc_some {c : Cfg} {s : Store} {v : Nat} (h : s.getMeta daIncKey = some (le64 v)) (hb : v < 2 ^ 64)
-    (hl : c.initialHeight - 1 ≤ v) : loadInc c s = v := by
-  unfold loadInc
-  rw [h]
-  simp only [le64_length, ↓reduceIte, unLe_le64 hb]
-  rw [if_neg (by omega)]
-
-theorem loadInc_none {c : Cfg} {s : Store} (h : s.getMeta daIncKey = none) : loadInc c s = c.initialHeight - 1 := by
-  unfold loadInc
-  rw [h]
-  simp only
-  split <;> omega
 
 /-- **a restart gives the DA-included height back**: the persisted one, or `initialHeight − 1` when nothing is persisted —
 which is what the node held -/
